@@ -50,6 +50,7 @@ func statusKind(v ssa.Value) string {
 }
 
 func c03(c *Ctx) {
+	c03assignFromPresent(c)
 	r := c.R
 	r.Decides("PreFilter cannot return Success (or defer to the ancestor check) unless used+request <= limit held, masked to the declared dimensions, against the snapshot's limit; for non-preemptible pods additionally nonPreemptibleUsed+request <= min; with parent checking on, the result is that of the ancestor walk")
 	r.Decides("the ancestor walk succeeds only at the root, compares every ancestor against the same limit selector, and recurses only after the comparison passed")
